@@ -150,6 +150,17 @@ impl AuthorityLockGuard {
 
 impl Drop for AuthorityLockGuard {
     fn drop(&mut self) {
+        // Release only what is still ours: once another authority took the store over (stale-lock
+        // recovery), the files at these paths are its lock and its endpoint, not this guard's.
+        let still_ours = fs::read_to_string(&self.lock_path)
+            .ok()
+            .and_then(|contents| serde_json::from_str::<AuthorityLockRecord>(&contents).ok())
+            .is_some_and(|current| {
+                current.pid == self.record.pid && current.started_at_ms == self.record.started_at_ms
+            });
+        if !still_ours {
+            return;
+        }
         let _ = fs::remove_file(&self.meta_path);
         let _ = fs::remove_file(&self.lock_path);
     }
